@@ -139,14 +139,16 @@ func (ex *Exec) wellFormed(st *State, v Value, pc *Term) {
 	}
 	switch x := v.(type) {
 	case PtrV:
-		if x.Kind == PHeap && !x.Ref.lit {
+		if x.Kind == PHeap && !x.Ref.lit && ex.noAlloc == 0 {
 			al := st.get("alloc", SArr(SRef, SBool))
 			ex.assume(pc, Or(Eq(x.Ref, RefNil()), Select(al, x.Ref)))
 		}
 	case SliceV:
 		if x.St == StDyn && !x.ID.lit {
 			al := st.get("alloc", SArr(SRef, SBool))
-			ex.assume(pc, Or(Eq(x.ID, RefNil()), Select(al, x.ID)))
+			if ex.noAlloc == 0 {
+				ex.assume(pc, Or(Eq(x.ID, RefNil()), Select(al, x.ID)))
+			}
 			ex.assume(pc, And(BVSle(BV(0, 64), x.Len), BVSle(x.Len, x.Cap), BVSle(x.Cap, BV(1<<40, 64)),
 				BVSle(BV(0, 64), x.Off), BVSle(x.Off, BV(1<<40, 64))))
 			ex.assume(pc, Implies(Eq(x.ID, RefNil()), And(Eq(x.Len, BV(0, 64)), Eq(x.Cap, BV(0, 64)))))
